@@ -26,12 +26,12 @@ REG = {
         "modules": ["VProofs.Props.C03", "VProofs.Props.Pandas"],
         "theorems": thms("C03", ["C03_infer_sound", "C03_lands_step", "C03_lands_pandas"])
                     + ["V.Pd.pandas_WF", "V.Pd.outputs_good", "V.Pd.goodB_sound", "V.Pd.built_typeset", "V.PandasProps.C03_pandas", "V.PandasProps.C03_pandas_model"],
-        "runners": ["pandas", "numpy", "list"],
+        "runners": ["pandas", "numpy", "list", "frame"],
     },
     "C04": {
         "modules": ["VProofs.Props.C04", "VProofs.Props.Pandas"],
         "theorems": thms("C04", ["C04_fixpoint"]) + ["V.Pd.pandas_WF", "V.Pd.outputs_good", "V.Pd.goodB_sound", "V.PandasProps.C04_pandas"],
-        "runners": ["pandas", "numpy", "list"],
+        "runners": ["pandas", "numpy", "list", "frame"],
     },
     "C15": {
         "modules": ["VProofs.Props.C15", "VProofs.Props.Pandas"],
